@@ -154,6 +154,18 @@ def parse_output(out, names):
                     else:
                         r.status, r.reason = "holds", "VERIFICATION SUCCESSFUL"
                 elif "VERIFICATION:- FAILED" in txt:
+                    # CBMC's --nan-check (on by default under Kani) flags float operations that may
+                    # produce NaN; NaN is a legal f32 value in Rust, not a panic: ignored
+                    nan_only = [c for c in r.failed_checks if re.match(r"^NaN on ", c)]
+                    others = [c for c in r.failed_checks if not re.match(r"^NaN on ", c)]
+                    if nan_only and not others and not (r.covers_total and r.covers_sat < r.covers_total) \
+                            and r.failed == len(nan_only):
+                        r.status, r.reason = "holds", "VERIFICATION SUCCESSFUL (CBMC NaN-production checks ignored)"
+                        r.failed_checks = []
+                        cur_thread = None
+                        i = j + 1
+                        continue
+                    r.failed_checks = others
                     real = [c for c in r.failed_checks if not _NONVIOLATION_PAT.search(c)]
                     if real and not re.search(r"CBMC (failed|timed out)|out of memory|Status: ERROR", txt, re.I):
                         r.status = "fails"
